@@ -155,6 +155,65 @@ def part_a(rep, hbin, tier, seed, cov):
     return 1, (1 if tables_ok else 0)
 
 
+def part_b(rep, hbin, tier, seed, cov):
+    """Expression-tree parser: observations of the real parser vs the model, inside Coq."""
+    tdir = os.path.join(vlib.COQ, "Tables")
+    p = _run_engine(hbin, ["tree", str(seed), tier], tier)
+    open(os.path.join(tdir, "ExprTreeTablesGen.v"), "w").write(p.stdout)
+    m = re.search(r"TREE cases=(\d+) kinds=(\{.*?\}) outcomes=(\{.*?\})", p.stderr)
+    cov["expression_tree"] = {"cases": int(m.group(1)) if m else 0,
+                              "kinds": json.loads(m.group(2)) if m else {},
+                              "outcomes[ok, errN = ParseTreeError class]": json.loads(m.group(3)) if m else {}}
+    cov.setdefault("samples", []).extend(re.findall(r"TREESAMPLE (.*)", p.stderr)[:4])
+    panics = (json.loads(m.group(3)).get("panic", 0) + json.loads(m.group(3)).get("inconsistent", 0)) if m else 0
+    for f in ("Tables/ExprTreeTablesGen.v", "Tables/ExprTreeTablesDefs.v"):
+        c = vlib.coqc(f)
+        if c.returncode != 0:
+            raise RuntimeError("%s does not compile: %s" % (f, (c.stderr or c.stdout)[-1500:]))
+    c2 = vlib.coqc("Tables/ExprTreeTablesCheck.v")
+    ok = c2.returncode == 0
+    if not ok:
+        c3 = vlib.coqc("Tables/ExprTreeTablesDiag.v")
+        val = None
+        mm = re.search(r"=\s*(\[.*\])\s*:\s*list", c3.stdout, flags=re.S) if c3.returncode == 0 else None
+        if mm:
+            import ast
+            try:
+                val = ast.literal_eval(re.sub(r"\s+", " ", re.sub(r"%(N|nat)", "", mm.group(1)).replace(";", ",")))
+            except Exception:
+                val = None
+        diffs = []
+        for row in (val or []):
+            (i, bs, impl, model) = row
+            diffs.append({"index": i, "input": _bytes_str(bs), "implementation_obs": list(impl), "model_obs": list(model)})
+        # judge with the specification side: a panic of the real parser is a failing input of the
+        # property (C10/C11: no string may crash the parser); so is a tree whose re-printed text differs
+        failing = [d for d in diffs if d["implementation_obs"][:1] in ([2], [3])]
+        if failing:
+            d = failing[0]
+            rep.violation("tree-panic", "expression::Tree::from_str panics or returns an inconsistent tree on %r" % d["input"],
+                          {"property": PID, "part": "expression-tree", "input": d["input"], "observation": d["implementation_obs"],
+                           "model": d["model_obs"]}, True)
+        else:
+            # accepted-by-one-side cases: the string itself is the witness when the implementation accepts
+            # a string that is not the text of any tree (the model's verdict is an error) or vice versa
+            wit = None
+            for d in diffs:
+                if (d["implementation_obs"][:1] == [0]) != (d["model_obs"][:1] == [0]):
+                    wit = d
+                    break
+            if wit is not None:
+                rep.violation("tree-accept", "expression::Tree::from_str and the model disagree on acceptance of %r" % wit["input"],
+                              {"property": PID, "part": "expression-tree", "input": wit["input"],
+                               "implementation": wit["implementation_obs"], "model": wit["model_obs"],
+                               "broken_tie": "tree_cases_match_model"}, True)
+            else:
+                rep.violation("tree-tie", "expression-tree model and parser differ: %s" % json.dumps(diffs[:1])[:400],
+                              {"property": PID, "part": "expression-tree", "broken_tie": "tree_cases_match_model (Tables/ExprTreeTablesCheck.v)",
+                               "differences": diffs, "log": (c2.stderr or c2.stdout)[-500:] if not diffs else ""}, False)
+    return 1, (1 if ok else 0)
+
+
 def replay_file(rep, hbin, tier, path):
     """--replay: re-run the recorded input against the current tree."""
     obj = json.load(open(path))
@@ -185,11 +244,15 @@ def run(rep, tier, seed, replay):
     o, d = part_a(rep, hbin, tier, seed, cov)
     obligations += o
     discharged += d
+    o, d = part_b(rep, hbin, tier, seed, cov)
+    obligations += o
+    discharged += d
     camp = cov.get("substitution_campaign", {})
     tab = cov.get("checksum_tables", {})
     evaluations = (tab.get("single_chars", 0) + tab.get("two_char_strings", 0) + tab.get("random_strings", 0) + tab.get("verify_cases", 0)
                    + camp.get("single_substitutions_all_positions_x_all_characters", 0) + camp.get("double_substitutions", 0)
-                   + camp.get("in_group0_3or4_substitutions", 0) + camp.get("collision_sweep_checksums", 0))
+                   + camp.get("in_group0_3or4_substitutions", 0) + camp.get("collision_sweep_checksums", 0)
+                   + cov.get("expression_tree", {}).get("cases", 0))
     rep.coverage.update(cov)
     rep.coverage.update({
         "obligations": obligations, "discharged": discharged,
